@@ -59,6 +59,17 @@ theorem no_wait_outside_fetch_48k (row col : Int) (hr : 0 ≤ row ∧ row < 192)
 theorem no_wait_before_display_48k (t : Int) (h : t < 14335) : delays48 t = 0 := delays48_zero_before t h
 theorem no_wait_after_display_48k (t : Int) (h : 14335 + 224 * 192 ≤ t) : delays48 t = 0 := delays48_zero_after t h
 
+/-- The window the simulators test (`t0 < T mod frame < t1`, constants of `CMIOSimulator.__init__`,
+compared with the real objects on every run) is sound and tight: no wait can be met from `t1` on or
+within 23 T-states of an instruction starting at or before `t0`, while the T-states just inside it are
+contended. -/
+theorem window_sound_48k (t : Int) : ((cfgFor false).t1 ≤ t → delays48 t = 0) ∧ (t ≤ (cfgFor false).t0 + 22 → delays48 t = 0) :=
+  ⟨window_sound_48k_after t, window_sound_48k_before t⟩
+theorem window_sound_128k (t : Int) : ((cfgFor true).t1 ≤ t → delays128 t = 0) ∧ (t ≤ (cfgFor true).t0 + 22 → delays128 t = 0) :=
+  ⟨window_sound_128k_after t, window_sound_128k_before t⟩
+theorem window_tight : (delays48 ((cfgFor false).t1 - 1) = 1 ∧ delays48 ((cfgFor false).t0 + 23) = 6) ∧
+    (delays128 ((cfgFor true).t1 - 1) = 1 ∧ delays128 ((cfgFor true).t0 + 23) = 6) := ⟨window_tight_48k, window_tight_128k⟩
+
 /-- every I/O contention pattern accounts for exactly the 4 T-states of the I/O cycle -/
 theorem io_pattern_is_four_tstates {μ : Type} [MemLike μ] (cfg : Cfg) (m : μ) (port : Int) :
     ((io_contention cfg m port).map Prod.snd).sum = 4 := io_contention_sum cfg m port
